@@ -373,4 +373,77 @@ theorem level_dead (m : SIR) (M k : Nat) (va : List Rat × List Rat) (hk : M ≤
 theorem initAlive_sum (s0 : Nat) : (initAlive s0).sum = 1 := by
   simp [initAlive]
 
+/-! ### embedded jump chain: non-negativity -/
+
+def NonNeg (l : List Rat) : Prop := ∀ x ∈ l, 0 ≤ x
+
+theorem nonneg_mapIdx' (f : Nat → Rat → Rat) (hf : ∀ s x, 0 ≤ x → 0 ≤ f s x) (s : Nat) (v : List Rat) (hv : NonNeg v) :
+    NonNeg (mapIdx' f s v) := by
+  induction v generalizing s with
+  | nil => intro x hx; simp [mapIdx'] at hx
+  | cons a as ih =>
+    intro x hx
+    simp only [mapIdx', List.mem_cons] at hx
+    rcases hx with rfl | hx
+    · exact hf s a (hv a (by simp))
+    · exact ih (s + 1) (fun y hy => hv y (by simp [hy])) x hx
+
+theorem nonneg_zipWith_add (a b : List Rat) (ha : NonNeg a) (hb : NonNeg b) : NonNeg (List.zipWith (· + ·) a b) := by
+  induction a generalizing b with
+  | nil => intro x hx; simp at hx
+  | cons p ps ih =>
+    cases b with
+    | nil => intro x hx; simp at hx
+    | cons q qs =>
+      intro x hx
+      simp only [List.zipWith_cons_cons, List.mem_cons] at hx
+      rcases hx with rfl | hx
+      · exact add_nonneg (ha p (by simp)) (hb q (by simp))
+      · exact ih qs (fun y hy => ha y (by simp [hy])) (fun y hy => hb y (by simp [hy])) x hx
+
+theorem nonneg_tail_append_zero (l : List Rat) (h : NonNeg l) : NonNeg (l.tail ++ [0]) := by
+  intro x hx
+  simp only [List.mem_append, List.mem_singleton] at hx
+  rcases hx with hx | rfl
+  · exact h x (List.mem_of_mem_tail hx)
+  · exact le_refl _
+
+theorem pInf_nonneg (m : SIR) (hm : GoodSIR m) (s i : Nat) : 0 ≤ pInf m s i := by
+  have hb := hm.beta_nonneg; have hg := hm.gamma_pos; have hp := hm.pop_pos
+  simp only [pInf, stepProbs, sirRates, List.map_cons, List.map_nil, List.sum_cons, List.sum_nil, List.getD_cons_zero]
+  positivity
+
+theorem pRec_nonneg (m : SIR) (hm : GoodSIR m) (s i : Nat) : 0 ≤ pRec m s i := by
+  have hb := hm.beta_nonneg; have hg := hm.gamma_pos; have hp := hm.pop_pos
+  simp only [pRec, stepProbs, sirRates, List.map_cons, List.map_nil, List.sum_cons, List.sum_nil, List.getD_cons_succ,
+    List.getD_cons_zero]
+  positivity
+
+theorem level_nonneg (m : SIR) (hm : GoodSIR m) (M k : Nat) (va : List Rat × List Rat)
+    (h1 : NonNeg va.1) (h2 : NonNeg va.2) : NonNeg (level m M k va).1 ∧ NonNeg (level m M k va).2 := by
+  constructor
+  · apply nonneg_zipWith_add
+    · exact nonneg_mapIdx' _ (fun s x hx => by split <;> [exact mul_nonneg hx (pRec_nonneg m hm _ _); exact le_refl _]) 0 _ h1
+    · apply nonneg_tail_append_zero
+      exact nonneg_mapIdx' _ (fun s x hx => by split <;> [exact mul_nonneg hx (pInf_nonneg m hm _ _); exact le_refl _]) 0 _ h1
+  · apply nonneg_zipWith_add _ _ h2
+    exact nonneg_mapIdx' _ (fun s x hx => by split <;> [exact le_refl _; exact hx]) 0 _ h1
+
+theorem runLevels_nonneg (m : SIR) (hm : GoodSIR m) (M : Nat) (ks : List Nat) (va : List Rat × List Rat)
+    (h1 : NonNeg va.1) (h2 : NonNeg va.2) : NonNeg (runLevels m M ks va).1 ∧ NonNeg (runLevels m M ks va).2 := by
+  induction ks generalizing va with
+  | nil => exact ⟨h1, h2⟩
+  | cons k ks ih =>
+    obtain ⟨g1, g2⟩ := level_nonneg m hm M k va h1 h2
+    simpa [runLevels] using ih (level m M k va) g1 g2
+
+theorem finalRun_nonneg (m : SIR) (hm : GoodSIR m) (s0 i0 : Nat) : NonNeg (finalRun m s0 i0).2 := by
+  refine (runLevels_nonneg m hm _ _ _ ?_ ?_).2
+  · intro x hx
+    simp only [initAlive, List.mem_append, List.mem_replicate, List.mem_singleton] at hx
+    rcases hx with ⟨_, rfl⟩ | rfl <;> norm_num
+  · intro x hx
+    simp only [List.mem_replicate] at hx
+    rw [hx.2]
+
 end Pygom.Ctmc
